@@ -82,6 +82,10 @@ def inmem_update_delayed(repo_root, tier):
             errs.append("no_duplicates")
         if list(q.dead) != dead0 or set(q.processing) != proc0:
             errs.append("frame")
+        # single_copy_kept (the clauses the proof leaves to this stand-in): every message is in exactly one place, once
+        everywhere = list(q.simple._queue) + [m for lst in q.delayed.values() for m in lst] + list(q.dead) + list(q.processing)
+        if len(everywhere) != len(set(map(id, everywhere))):
+            errs.append("single_copy_kept")
         return errs
 
     for k in range(0, 4):
